@@ -5,7 +5,7 @@ tier=${1:-quick}
 cd /verif
 for c in $(seq -f "C%02g" 1 20); do
   git -C /repo diff --quiet || { echo "/repo not clean"; exit 2; }
-  git -C /repo apply /tmp/wt2/$c.patch || { echo "$c: patch does not apply"; continue; }
+  git -C /repo apply ${WT:-/tmp/wt2}/$c.patch || { echo "$c: patch does not apply"; continue; }
   out=$(timeout 3000 tools/cases_only.py $c $tier 2>&1 | grep -v conda | grep "^$c \|^VIOL\|^TIE\|^KNOWN" | cut -c1-260)
   git -C /repo checkout -- .
   echo "== $c: $(echo "$out" | head -1 | sed 's/drift=.*//')"
